@@ -55,14 +55,14 @@ BOUNDS = {
     "quick": {"target": "x86_64 (LP64)",
               "literal values": "every value 0..max of the literal's type (int, unsigned, long, unsigned long by suffix); "
                                 f"literals inside a shift count: 0..{SHIFT_COUNT_MAX}; literals inside the right factor of a product that has a compound factor "
-                                "(not L, -L, (T)L): 0..65535",
+                                "(not L, -L, (T)L) or a 64-bit literal in its right factor: 0..65535",
               "expression shapes": "depth 1 exhaustive: leaf op leaf for the 18 binary operators, unary - ~ ! + on a leaf, "
                                    "casts to the 9 integer types, ?:, with leaves L, (-L), (T)L over literal types int/unsigned/long/unsigned long",
               "uses": "global scalar initialiser of every integer type (char ... long long); array element, struct field, "
                       "static local, bit-field initialiser, case label, enumerator, array size on a subset"},
     "thorough": {"targets": "x86_64 (LP64), arm (ILP32), msp430 (16-bit int), or1k (ILP32, big endian)",
                  "literal values": "as quick",
-                 "expression shapes": "depth 1 exhaustive on every target + depth 2 trees sampled by VERIF_SEED",
+                 "expression shapes": "all quick shapes on every target + 5000 depth-2 trees sampled by VERIF_SEED (random use, destination, target)",
                  "uses": "as quick, all uses on every target"},
 }
 OUTSIDE = ["literal *spelling*: values are decimal, the type is fixed by the suffix and the value ranges over that type "
@@ -70,7 +70,7 @@ OUTSIDE = ["literal *spelling*: values are decimal, the type is fixed by the suf
            "bit-field *widths* and array designators as constant expressions (only the uses listed in the bounds)",
            "floating-point and address constants, sizeof, enumeration constants inside the expression",
            "expression trees deeper than 2 operators; among the sampled depth-2 trees those with more than one of * / %, with * / % "
-           "next to <<, with more than one <<, or with a growing operator inside a shift count (wide symbolic products and "
+           "next to <<, with more than one <<, with a product whose right factor is not L, -L, (T)L, or with a growing operator inside a shift count (wide symbolic products and "
            "quotients of sub-expressions are out of the solvers' reach); shapes whose premise no literal assignment satisfies",
            f"shift counts built from literals larger than {SHIFT_COUNT_MAX} (undefined in C for every integer type)",
            "structure layout (padding/alignment): for struct fields only the bytes of the initialised field are compared"]
@@ -195,7 +195,8 @@ class CExprHarness(Harness):
         self.shiftlits = csem.shift_count_literals(expr)
         # products whose factors are both plain literals keep the full ranges; with a compound factor the literals of
         # the right factor are limited (symbolic wide x wide products of sub-expressions are out of the solvers' reach)
-        self.mullits = csem.mul_right_literals(expr, compound_only=True)
+        wide = [sfx for sfx, t in csem.SUFFIX_TYPE.items() if self.dm.size(t) == 8]
+        self.mullits = csem.mul_right_literals(expr, compound_only=True, wide=wide)
 
     # -- inputs ------------------------------------------------------------------------------------
     def inputs(self, mk):
@@ -436,7 +437,17 @@ def _grows_in_count(e, inside=False):
     return any(_grows_in_count(x, inside) for x in e[1:] if isinstance(x, list))
 
 
+def _mul_right_leaf(e):
+    if e[0] == "lit":
+        return True
+    if e[0] == "mul" and not csem._is_leaf(e[2]):
+        return False
+    return all(_mul_right_leaf(x) for x in e[1:] if isinstance(x, list))
+
+
 def tractable(e):
+    if not _mul_right_leaf(e):
+        return False        # the right factor of a product is L, -L or (T)L
     txt = csem.render(e, lambda i, s: "L")
     heavy = txt.count("*") + txt.count("/") + txt.count("%")
     return txt.count("<<") <= 1 and heavy <= 1 and not (heavy and txt.count("<<")) and not _grows_in_count(e)
@@ -495,7 +506,7 @@ def select(tier, seed):
     for m in ARCH:
         T += quick_templates(m)
     rnd = random.Random(2700001 * seed + 27)
-    T += depth2_templates(rnd, 2200, list(ARCH))
+    T += depth2_templates(rnd, 5000, list(ARCH))
     return T
 
 
